@@ -1,6 +1,6 @@
 //! `verif-harness replay --replay FILE --out DIR`: re-run the lines of a replay file on the real code
 //! (with the implementation-only oracles) and emit the request lines for the model.
-use crate::engines::{dec, hostile, matcher, reuse, tables};
+use crate::engines::{dec, headers, hostile, matcher, reuse, tables, window};
 use crate::util::*;
 
 fn dec_lines(run: &mut Run, lines: &[String]) {
@@ -75,6 +75,10 @@ pub fn run(opts: &Opts) -> Run {
         } else {
             run.case(l.clone(), "(model only)".into());
         }
+    }
+    for l in lines.iter().filter(|l| l.starts_with("headers ") || l.starts_with("window ")) {
+        let a = if l.starts_with("headers ") { headers::replay_line(l) } else { window::replay_line(l) };
+        run.case(l.clone(), a.unwrap_or_else(|| "(model only)".into()));
     }
     let host: Vec<Vec<u8>> = lines.iter().filter(|l| l.starts_with("hostile input ")).filter_map(|l| unhex(l.split(' ').nth(2).unwrap_or(""))).collect();
     if !host.is_empty() {
